@@ -193,7 +193,7 @@ def run(ctx):
     res = core.Result()
     c05.setup(ctx, "c19")
     for texts in c16.KERNELS.values():
-        dgfam.warm_parse_cache("x86", texts)
+        dgfam.warm_parse_cache("x86", [t for t in texts if t])
     plan = [("k4", 2, 0, None, True), ("k4", 2, 0.2, None, True), ("k4", 2, 0.4, None, True),
             ("k5", 2, 0.2, None, True), ("k6", 2, 0.4, 3, True), ("k4", 3, 0.2, 3, True),
             ("k5", 3, 0.4, 2, True), ("k4", 2, 50, 2, True), ("k4", 2, -1, None, True),
